@@ -1,5 +1,6 @@
 import Proofs.ConfModel
 import Proofs.Blade
+import Proofs.Fund
 
 /-! # C08 — conformal point embeddings satisfy the model identities
 
@@ -49,6 +50,13 @@ theorem inner_is_half_anticommutator {R : Type} [CommRing R] (n : Nat) (sig : Na
     mmul n sig Model.imtCheck a b + mmul n sig Model.imtCheck a b = gmul n sig a b + gmul n sig b a := two_vector_inner n sig a b ha hb
 theorem wedge_is_half_commutator {R : Type} [CommRing R] (n : Nat) (sig : Nat → R) (a b : CMV n R) (ha : IsHom n 1 a) (hb : IsHom n 1 b) :
     wedge n a b + wedge n a b = gmul n sig a b - gmul n sig b a := two_vector_wedge n sig a b ha hb
+
+/-- … and for a vector against a bivector (`v ∧ E0` in `down`): `2 (v ∧ B) = vB + Bv` -/
+theorem vector_wedge_bivector {R : Type} [CommRing R] (n : Nat) (sig : Nat → R) (v B : CMV n R) (hv : IsHom n 1 v) (hB : IsHom n 2 B) :
+    wedge n v B + wedge n v B = gmul n sig v B + gmul n sig B v := by
+  have h := two_wedge_vector_hom n sig 2 v B hv hB
+  have h2 : (sgn 2 : R) = 1 := by simp [sgn]
+  rw [h2, one_smul] at h; exact h
 
 /-- non-vacuity: Cl(1,0) conformalised (N = 3, sig = (1, 1, -1)), the base vector 3·e₀ -/
 example : ∃ q : ℚ, Rel (Cl.vec (fun i : Fin 3 => if i.val = 0 then (3 : ℚ) else 0) : Cl 3 (fun i => if i = 2 then (-1 : ℚ) else 1))
